@@ -217,8 +217,10 @@ def audit_stv(e, cands, Wd0, m, quota, simultaneous, transfer, tiebreak, transfe
                     if any(got.get(k, 0) > pool.get(k, 0) for k in got):
                         probs.append(f"{tag}: random transfer for {c} is not a sub-collection of its ballots: {got} vs {pool}")
                     want = int(tall[c]) - T
-                    if total(got) != min(want, total(pool)) and total(got) != want:
-                        probs.append(f"{tag}: random transfer for {c} moved {total(got)} ballots, surplus is {want}")
+                    exhausted_units = tall[c] - total(pool)  # winner ballots with no surviving choice
+                    if not (want - exhausted_units <= total(got) <= min(want, total(pool))):
+                        probs.append(f"{tag}: random transfer for {c} moved {total(got)} ballots; surplus {want}, of which at most "
+                                     f"{exhausted_units} can be exhausted ballots")
                     moved = got
                 else:
                     fac = (tall[c] - T) / tall[c] if transfer == "fractional" else F(1)
